@@ -53,8 +53,12 @@ def compare_parse(sw, kind, A, C, text, fmt, case):
 def sweep_serial(sw, r, tier):
     vals = corr_fmt.SERIAL_VALUES + [r.randrange(10 ** r.randint(1, 24)) for _ in range(40 if tier == "quick" else 300)]
     for n in vals:
-        a, c = ASerial.from_value(n), Serial.from_value(n)
         case = {"cls": "serial", "value": n}
+        try:
+            a, c = ASerial.from_value(n), Serial.from_value(n)
+        except Exception as e:  # noqa: BLE001
+            sw.check(False, "from_value of a value of the C09 domain raises", {**case, "clause": "serial-from-value"}, n, f"{type(e).__name__}: {e}")
+            continue
         # %p is a 3-digit field and the asset %b an 8-bit field: like %p in C01, they belong to the domain only while the value fits
         dirs = [d for d in S_DIRS if (d != "%p" or n < 1000) and (d != "%b" or n < 256)]
         for d in dirs:
@@ -90,7 +94,10 @@ def sweep_serial(sw, r, tier):
     # arithmetic and order on pairs
     pairs = list(itertools.product(r.sample(vals, min(len(vals), 8 if tier == "quick" else 20)), repeat=2))
     for x, y in pairs:
-        ax, ay, cx, cy = ASerial.from_value(x), ASerial.from_value(y), Serial.from_value(x), Serial.from_value(y)
+        try:
+            ax, ay, cx, cy = ASerial.from_value(x), ASerial.from_value(y), Serial.from_value(x), Serial.from_value(y)
+        except Exception:  # noqa: BLE001 - reported above
+            continue
         case = {"cls": "serial", "a": x, "b": y}
         sw.note(["serial-pair", x, y], "serial-pair")
         def val(o):
@@ -119,8 +126,12 @@ def sweep_datetime(sw, r, tier):
     n = 150 if tier == "quick" else 1200
     vals = [rand_instant(r) for _ in range(n)] + [_dt.datetime(2024, 2, 29, 23, 59, 59), _dt.datetime(1000, 1, 1), _dt.datetime(9999, 12, 31, 23, 59, 59), _dt.datetime(1900, 1, 1)]
     for t in vals:
-        a, c = ADatetime.from_value(t), Datetime.from_value(t)
         case = {"cls": "datetime", "value": str(t)}
+        try:
+            a, c = ADatetime.from_value(t), Datetime.from_value(t)
+        except Exception as e:  # noqa: BLE001
+            sw.check(False, "from_value of a value of the C01 domain raises", {**case, "clause": "datetime-from-value"}, str(t), f"{type(e).__name__}: {e}")
+            continue
         sw.check(a.value == c.value == t, "from_value does not keep the value", {**case, "clause": "datetime-from-value"}, str(t), [str(a.value), str(c.value)])
         for fmt in ("%%H:%M", "%%%Y", "%Y%%", "%%Y-%m", "%d%%%m"):
             sw.note(["datetime", str(t), fmt], "datetime-percent")
@@ -160,7 +171,10 @@ def sweep_datetime(sw, r, tier):
     for _ in range(150 if tier == "quick" else 1000):
         t, u = r.choice(vals), r.choice(vals)
         td = _dt.timedelta(days=r.randrange(-300, 300), seconds=r.randrange(86400))
-        at, au, ct, cu = ADatetime.from_value(t), ADatetime.from_value(u), Datetime.from_value(t), Datetime.from_value(u)
+        try:
+            at, au, ct, cu = ADatetime.from_value(t), ADatetime.from_value(u), Datetime.from_value(t), Datetime.from_value(u)
+        except Exception:  # noqa: BLE001 - reported above
+            continue
         case = {"cls": "datetime", "a": str(t), "b": str(u), "td": str(td)}
         sw.note(["datetime-pair", str(t), str(u), str(td)], "datetime-pair")
         def val(o):
